@@ -27,8 +27,19 @@ Definition single_op (t : trace) : bool :=
 Definition deterministic (t : trace) (rw : list N) : bool :=
   negb (has_ev is_commit t) || ln_eqb (writes_of t) rw.
 
+Definition snapshot_api_ok (a : string) : bool :=
+  existsb (fun p : string * bool => String.eqb (fst p) a && snd p) snapshot_reads.
+
+(** the writer part of a reader case: nothing (the boundary was never reached) or one call *)
+Definition writer_ok (t : trace) : bool :=
+  match writer_part t with [] => true | w => single_op w end.
+
 Definition wf_case (c : case) : bool :=
   match c with
+  | CRead a k mode tr pre post res =>
+      let t := expand tr in
+      snapshot_api_ok a && (mode <=? 2) && negb (pre =? 0) && negb (post =? 0) && writer_ok t &&
+      (negb (has_ev is_commit t) || negb (ln_eqb (writes_of t) []) || (pre =? post))
   | CRun m kind k mode tr refw pre post os rtr rd =>
       let t := expand tr in
       let rw := writes_of (expand refw) in
